@@ -182,3 +182,83 @@ def replay_input(data):
     for d in data.get("details") or []:
         print("  -", d.get("broken"), (d.get("what") or d.get("problems") or d.get("error") or "")[:300] if not isinstance(d.get("problems"), list) else d.get("problems"))
     return None
+
+
+# ---------------------------------------------------------------------------------------------------------------
+# Padding: the same game with PAD isolated states inserted after the initial state, so that every other state number
+# lies above CPython's small-int cache and above the table sizes of small sets. The inserted states are probabilistic
+# self-loops with reward 0: they are not final, reach nothing, are reached by nothing, and keep the relative order
+# of the real states, so every sweep visits the real states in the same order and the results must be the ones of
+# the unpadded game. The unpadded run is what the Coq model is compared with; the padded run goes through the
+# implementation only (unary state numbers make the model slow above ~300 states).
+PAD = 300
+FIELDS = {"final": 0, "reach": 1, "rewards": 2, "probs": 3, "erm": 6, "ermr": 7}
+
+
+def pad_game(g, pad=PAD):
+    sh = lambda d: d if d == 0 else d + pad     # noqa: E731
+    tl = g["transition_list"]
+    return dict(players=[g["players"][0]] + [PR] * pad + list(g["players"][1:]),
+                rewards=[g["rewards"][0]] + [0] * pad + list(g["rewards"][1:]),
+                transition_list=[[(x, sh(d)) for x, d in tl[0]]] + [[(1, k)] for k in range(1, pad + 1)]
+                + [[(x, sh(d)) for x, d in row] for row in tl[1:]],
+                final_states=[sh(f) for f in g["final_states"]])
+
+
+def _unpad(lst, pad=PAD):
+    return [lst[0]] + list(lst[pad + 1:])
+
+
+def _close(a, b):
+    return a == b or (isinstance(a, (int, float)) and isinstance(b, (int, float)) and abs(a - b) <= 1e-9 * max(1.0, abs(a), abs(b)))
+
+
+def padding_check(ctx, recs, fields, count, tag):
+    """metamorphic check through the implementation: `fields` (names in FIELDS, or 'pruned') of the padded game's
+    result against the unpadded one's. Numbers are compared up to 1e-9 relative (a rewrite may legitimately change the
+    order of a floating-point sum); strategy lists only when every number agrees bit for bit."""
+    pool = [r for r in recs if "timeout" not in r.res and len(r.game["players"]) >= 2
+            and all(isinstance(row, list) for row in r.game["transition_list"])]
+    ctx.rng.shuffle(pool)
+    pool = pool[:count]
+    jobs = [dict(op=r.op, game=enc(pad_game(r.game)), prune=r.prune, share=bool(r.meta.get("share"))) if r.op == "solve"
+            else dict(op="reach", game=enc(pad_game(r.game)), prune=r.prune) for r in pool]
+    res = impl.run_cases(jobs, limit=20, tag=tag + "pad")
+    for r, x in zip(pool, res):
+        ctx.evaluations += 1
+        ctx.count("padded (+%d isolated states)" % PAD)
+        if "timeout" in x:
+            continue
+        pr = Rec(pad_game(r.game), r.meta, r.prune, r.op, x)
+        inp = pr.inp()
+        if r.ok != pr.ok:
+            ctx.violation("padding the description with %d isolated states changes the outcome: %s, unpadded %s"
+                          % (PAD, pr.describe(), r.describe()), inp)
+            continue
+        if not r.ok:
+            if (r.res.get("exc"), r.res.get("msg")) != (x.get("exc"), x.get("msg")):
+                ctx.violation("padding changes the error: %s, unpadded %s" % (pr.describe(), r.describe()), inp)
+            continue
+        if r.op == "reach":
+            pairs = [("probs", _unpad(pr.out[0]), r.out[0]), ("reach", _unpad(pr.out[1]), r.out[1])]
+        else:
+            pairs = [(f, _unpad(pr.out[FIELDS[f]]), r.out[FIELDS[f]]) for f in FIELDS]
+        numeric = [p for p in pairs if p[0] in ("probs", "rewards", "erm", "ermr")]
+        exact = all(a == b for _, a, b in numeric)
+        for f, a, b in pairs:
+            if f not in fields:
+                continue
+            if f in ("final", "reach") and not exact:
+                continue
+            for s, (u, v) in enumerate(zip(a, b)):
+                if not (_close(u, v) if f not in ("final", "reach") else u == v):
+                    ctx.violation("padding the description with %d isolated states (state numbers above 256) changes %s of "
+                                  "state %d: %r, unpadded %r" % (PAD, f, s, u, v), inp)
+                    break
+        if "pruned" in fields and r.pruned is not None and pr.pruned is not None:
+            a = [[(w, d if d == 0 else d - PAD) for w, d in row] for row in _unpad(pr.pruned)]
+            for s, (u, v) in enumerate(zip(a, r.pruned)):
+                if [d for _, d in u] != [d for _, d in v] or not all(_close(p, q) for (p, _), (q, _) in zip(u, v)):
+                    ctx.violation("padding the description with %d isolated states changes the conditioned transitions of "
+                                  "state %d: %r, unpadded %r" % (PAD, s, u, v), inp)
+                    break
